@@ -602,6 +602,18 @@ def cfun_lines(ctx):
         lines.append("cfun htp_treat_response_line_as_body %s" % hx(list(s1)))
     for s1 in strings_upto([0x2f, 0x2e, 0x61], 7 if ctx.tier == "quick" else 9):
         lines.append("cfun htp_normalize_uri_path_inplace %s" % hx(list(s1)))
+    # the translated list functions driven through whole scripts (exhaustive short ones + long random ones)
+    import itertools as _it
+    for cap in (1, 2, 3):
+        for k in range(1, 6 if ctx.tier == "quick" else 7):
+            for ops in _it.product(("p7", "o", "s", "g0", "g1", "r1:9", "z"), repeat=k):
+                lines.append("cfun list %d %s" % (cap, ",".join(ops)))
+    for _ in range(1500 if ctx.tier == "quick" else 20000):
+        ops = []
+        for _j in range(rng.randint(5, 60)):
+            o = rng.choice("ppppoosgrzc")
+            ops.append({"p": "p%d" % rng.randint(1, 99), "g": "g%d" % rng.randint(0, 9), "r": "r%d:%d" % (rng.randint(0, 9), rng.randint(1, 99))}.get(o, o))
+        lines.append("cfun list %d %s" % (rng.randint(1, 5), ",".join(ops)))
     al2 = [0x61, 0x41, 0x62, 0x00]
     for s1 in strings_upto(al2, 3):
         for s2 in strings_upto(al2, 3):
